@@ -84,6 +84,28 @@ def shape_scenarios(seed):
         steps=[con, {"a": "burst", "t": 40, "o": 1, "reqs": [R(1, dial=False, pol="stall"), R(2, dial=False, pol="stall"),
                                                          R(3, dial=False), R(4, dial=False, pol="reject")]},
                {"a": "burst", "t": 1000, "o": 1, "reqs": [R(5, dial=False)]}])
+    # the bound is global: several requesters at once against one responder with a small bound whose
+    # user sits on its answers (node 4 responds, nodes 1-3 request)
+    for n in (1, 2):
+        for pol in ("stall", "slow"):
+            rq = lambda k, **kw: (R(k, to=4, dial=False, pol="stall", **kw) if pol == "stall"
+                                  else R(k, to=4, dial=False, rdelay=250, **kw))
+            add("bound-%d-three-requesters-%s" % (n, pol), nodes=[{}, {}, {}, {"maxc": n}], timeout_ms=600,
+                links=[L(1, 4), L(2, 4), L(3, 4)], epilogue="kill",
+                steps=[{"a": "connect", "from": 1, "to": 4}, {"a": "connect", "from": 2, "to": 4}, {"a": "connect", "from": 3, "to": 4},
+                       {"a": "burst", "t": 40, "o": 1, "reqs": [rq(1), rq(2), rq(3)]},
+                       {"a": "burst", "o": 2, "reqs": [rq(4), rq(5), rq(6)]},
+                       {"a": "burst", "o": 3, "reqs": [rq(7), rq(8), rq(9)]}])
+        # requester 1's payloads are held back by the proxy after its substreams were opened, requester 2
+        # fills the responder's slots meanwhile, then the held payloads arrive
+        for off in (120, 300, 700, 1500, 3000):
+            add("bound-%d-payload-delayed-%d" % (n, off), nodes=[{}, {}, {"maxc": n}], timeout_ms=1000, max_size=4096,
+                links=[L(1, 3, "proxy"), L(2, 3)],
+                steps=[{"a": "connect", "from": 1, "to": 3}, {"a": "connect", "from": 2, "to": 3},
+                       {"a": "freeze", "t": 40, "from": 1, "to": 3, "dir": "up", "after": off},
+                       {"a": "burst", "o": 1, "reqs": [R(i + 1, to=3, size=4000, dial=False, pol="stall") for i in range(n)]},
+                       {"a": "burst", "t": 120, "o": 2, "reqs": [R(10 + i, to=3, dial=False, pol="stall") for i in range(n)]},
+                       {"a": "thaw", "t": 120, "from": 1, "to": 3}])
     # the proxy cuts the connection at byte offsets during the request / during the response
     for off in (1, 20, 60, 300):
         add("cut-request-%d" % off, links=[L(1, 2, "proxy")],
@@ -118,7 +140,46 @@ def shape_scenarios(seed):
 
 # ----------------------------------------------------------------------------- seeded random scripts
 
+def random_bound_scenario(sid, rnd):
+    """several requesters against one responder with a small bound whose user sits on its answers"""
+    nreq = rnd.choice([2, 3, 3])
+    bound = rnd.choice([1, 1, 2])
+    resp = nreq + 1
+    timeout = rnd.choice([600, 800, 1000])
+    nodes = [{} for _ in range(nreq)] + [{"maxc": bound}]
+    delayed = rnd.random() < 0.5
+    links = [L(i, resp, "proxy" if (delayed and i == 1) or rnd.random() < 0.2 else "direct") for i in range(1, nreq + 1)]
+    steps = [{"a": "connect", "from": i, "to": resp} for i in range(1, nreq + 1)]
+    order = list(range(1, nreq + 1))
+    if not delayed:
+        rnd.shuffle(order)
+    k = 0
+    first = True
+    for o in order:
+        if delayed and o == 1:
+            steps.append({"a": "freeze", "t": 40, "from": 1, "to": resp, "dir": "up", "after": rnd.choice([100, 200, 400, 900, 2000, 3500])})
+        reqs = []
+        for _ in range(rnd.choice([1, 2, 3])):
+            k += 1
+            pol = rnd.choice(["stall", "stall", "slow", "reject-slow"])
+            r = R(k, to=resp, dial=False, size=4000 if (delayed and o == 1) else rnd.choice([HDR, 64, 900]),
+                  pol={"stall": "stall", "slow": "answer", "reject-slow": "reject"}[pol], rsize=rnd.choice([8, 32, 300]))
+            if pol != "stall":
+                r["rdelay"] = rnd.choice([150, 250, 400])
+            reqs.append(r)
+        t = 40 if first and not delayed else (rnd.choice([80, 150]) if delayed and o == 2 else rnd.choice([0, 0, 0, 1, 3]))
+        steps.append({"a": "burst", "t": t, "o": o, "reqs": reqs})
+        first = False
+    if delayed:
+        steps.append({"a": "thaw", "t": rnd.choice([80, 150, 250]), "from": 1, "to": resp})
+    return dict(id=sid, seed=rnd.randrange(1 << 30), src="rand-bound", timeout_ms=timeout, conn_ms=1000, sub_ms=1000, max_size=4096,
+                perturb=rnd.choice([0, 1, 2, 3]), nodes=nodes, links=links, steps=steps,
+                epilogue=rnd.choice(["", "kill"]), linger_ms=150)
+
+
 def random_scenario(sid, rnd):
+    if rnd.random() < 0.12:
+        return random_bound_scenario(sid, rnd)
     timeout = rnd.choice([300, 400, 500, 800, 1000])
     max_size = rnd.choice([256, 1024, 1024, 4096, 70000])
     nresp = rnd.choice([1, 1, 2])
